@@ -206,7 +206,7 @@ def parse_submit_full(p):
 SAR_TAGS = (0x020C, 0x020E, 0x020F)
 
 
-def session_segments_case(rng):
+def session_segments_case(rng, forced=None):
     """a message with options, addressing and application parameters of its own, segmented by the real Sender (SAR or
     UDH): an independent receiver reads the PDUs written.  Every segment must carry the message's addressing and options
     and its application parameters exactly once, the segmentation data (same reference, same total <= 255, sequence
@@ -218,6 +218,8 @@ def session_segments_case(rng):
     from corr import c06
     udh = rng.random() < 0.5
     gsm = rng.random() < 0.5
+    if forced:
+        udh, gsm = forced[0], forced[1]
     alphabet = sorted(spec.ALPHABET - {'\x1b'}) if gsm else list('жяблоко мир') + ['\U0001F600', 'a', '€']
     n = rng.choice((200, 300, 460, 700, 1500))
     text = ''.join(rng.choice(alphabet) for _ in range(n))
@@ -236,7 +238,20 @@ def session_segments_case(rng):
               esm_class=(0x40 if udh else 0) | rng.choice((0, 3, 0x80, 0x83, 0x04)))
     m = SubmitSm(**kw)
     n_own = len(params)
-    obs = c06.batch([m], 'gsm0338')
+    # the Sender task has handled another message before (of the other alphabet / the other segmentation method, as it
+    # happens): what it did for that one must not show in this one
+    prev_kind = rng.choice(('none', 'udh-ucs2', 'udh-gsm', 'sar-ucs2', 'sar-gsm', 'plain'))
+    if forced:
+        prev_kind = forced[2]
+    batch = []
+    if prev_kind != 'none':
+        ptext = {'ucs2': 'привет ' * rng.choice((1, 30)), 'gsm': 'hello ' * rng.choice((1, 40))}.get(
+            prev_kind.split('-')[-1], 'hi')
+        batch.append(SubmitSm(short_message=ptext, auto_message_payload=prev_kind == 'plain', log_id='prev',
+                              esm_class=0x40 if prev_kind.startswith('udh') else 0))
+    batch.append(m)
+    obs = c06.batch(batch, 'gsm0338')
+    obs = obs[len(batch) - 1:] if obs and len(obs) >= len(batch) else []
     fail = None
     written = obs[0]['written'] if obs else []
     if not obs or obs[0]['errors'] or not written:
@@ -335,15 +350,21 @@ def session_segments_case(rng):
                         got += t
                     if fail is None and got != text:
                         fail = 'reassembled text differs from the text submitted (%d vs %d characters)' % (len(got), len(text))
-    line = '# session-segments udh=%d gsm=%d n=%d params=%d' % (udh, gsm, n, n_own)
-    return Case(line, line, ('session-seg', udh, gsm, min(len(written), 4), n_own), fail,
-                {'op': 'session-seg', 'note': 'random; re-run the check with the same seed'})
+    line = '# session-segments udh=%d gsm=%d n=%d params=%d prev=%s' % (udh, gsm, n, n_own, prev_kind)
+    return Case(line, line, ('session-seg', udh, gsm, min(len(written), 4), n_own, prev_kind), fail,
+                {'op': 'session-seg', 'udh': udh, 'gsm': gsm, 'n': n, 'previous message': prev_kind,
+                 'note': 'random text; re-run the check with the same seed'})
 
 
 def generate(rng, tier):
     thorough = tier == 'thorough'
     for _ in range(60 if thorough else 16):
         yield session_segments_case(rng)
+    # every (method, alphabet) after every kind of previous message
+    for udh in (False, True):
+        for gsm in (False, True):
+            for prev in ('udh-ucs2', 'udh-gsm', 'sar-ucs2', 'sar-gsm'):
+                yield session_segments_case(rng, (udh, gsm, prev))
     refs = (0, 1, 255, 256, 65535)
     # (function, gsm?, ref-width) -> (single limit in cells, chunk size in cells)
     confs = []
